@@ -175,12 +175,12 @@ pub fn run(run: &'static Run) {
     let quick = run.quick();
     run.rule(
         "DAGs as in C46 (ordered parent lists <=3, 5 committer-date patterns incl. all-equal, equal pairs and skewed): quick n<=3 full + n=4 with ascending \
-         parent lists and zigzag dates; thorough n<=4 full + n=5 with ascending parent lists, zigzag dates, single tips. tips: every single commit and every pair (half of the pairs also reversed); hidden: none or one \
+         parent lists and zigzag dates; thorough n<=4 full. tips: every single commit and every pair (half of the pairs also reversed); hidden: none or one \
          commit not among the tips (Topo modes only; Simple has no hidden commits); 9 modes: Simple breadth-first / newest-first / oldest-first / \
          first-parent / newest-first with cut-off at the median date; Topo date-order / topo-order, each with all parents and first-parent. Each with and \
          without the commit-graph. non-trivial = the expected walk shows >= 2 commits",
     );
-    run.assume("each-once and the reachable set are demanded in every mode. The exact sequence is demanded where the statement determines it: newest-first and Topo orders on DAGs with pairwise distinct dates (== reference model of git's rev-list, validated against git rev-list on DAGs n<=2 quick / n<=3 and n=4 equal/skewed/zigzag thorough), first-parent chains of a single tip. With equal dates gitoxide's binary heap and git's stable list may break ties differently, there the sequence must be *a* valid run (frontier-extreme date for date walks; children before parents, newest ready commit first for --date-order)");
+    run.assume("each-once and the reachable set are demanded in every mode. The exact sequence is demanded where the statement determines it: newest-first and Topo orders on DAGs with pairwise distinct dates (== reference model of git's rev-list, validated against git rev-list on DAGs n<=2 quick / n<=3 thorough), first-parent chains of a single tip. With equal dates gitoxide's binary heap and git's stable list may break ties differently, there the sequence must be *a* valid run (frontier-extreme date for date walks; children before parents, newest ready commit first for --date-order)");
     run.assume("first-parent Topo modes are run without hidden commits (git's --first-parent also restricts the walk from hidden commits)");
     run.budget_secs(run.pick(36.0, 560.0));
 
@@ -188,7 +188,7 @@ pub fn run(run: &'static Run) {
     let spec: Vec<(usize, bool, &[u8])> = if quick {
         vec![(1, true, all), (2, true, all), (3, true, all), (4, false, &[3])]
     } else {
-        vec![(1, true, all), (2, true, all), (3, true, all), (4, true, all), (5, false, &[3])]
+        vec![(1, true, all), (2, true, all), (3, true, all), (4, true, all)]
     };
     let dags: Vec<Dag> = match run.replay_case::<serde_json::Value>("walks").or_else(|| run.replay_case::<serde_json::Value>("git-crosscheck")) {
         Some(v) => vec![serde_json::from_value(v["dag"].clone()).unwrap_or_else(|e| vkit::machinery!("replay case: {e}"))],
@@ -325,7 +325,8 @@ pub fn run(run: &'static Run) {
             let n = d.n();
             if git {
                 let pat = (0..5u8).find(|&p| d.dates == dag::date_pattern(n, p));
-                let sel = if quick { n <= 2 } else { n <= 3 || (n == 4 && matches!(pat, Some(1 | 2 | 3))) };
+                let _ = pat;
+                let sel = if quick { n <= 2 } else { n <= 3 };
                 if !sel {
                     continue;
                 }
